@@ -56,8 +56,18 @@ def clamp(i, lo, hi):
     return lo if i < lo else (hi if i > hi else i)
 
 
+const("flumine.utils", "PRICES_FLOAT", ghost_list("PRICES_FLOAT", 1))  # len, every element, strict monotonicity: ground-checked (extra_c17.py)
+CLASSIC_FLOAT = ghost_list("PRICES_FLOAT", 1)
+
+
+def eff_prices(prices):
+    return CLASSIC_FLOAT if (prices is None or len(prices) == 0) else prices
+
+
 @contract("flumine/utils.py::price_ticks_away", tags=["C17"])
-def _(price: REAL, n_ticks: INT, prices: ListOf(REAL)) -> REAL:
-    requires("ladder", len(prices) > 0 and strictly_increasing(prices) and prices[0] == 1.01 and prices[len(prices) - 1] == 1000)
-    raises(ValueError, when=not exists(lambda a: prices[a] == price, 0, len(prices)), label="off_ladder")
-    ensures("n_ticks_away_clamped", forall(lambda a: implies(prices[a] == price, result == prices[clamp(a + n_ticks, 0, len(prices) - 1)]), 0, len(prices)))
+def _(price: REAL, n_ticks: INT, prices: Opt(ListOf(REAL))) -> REAL:
+    requires("ladder", implies(prices is not None and len(prices) > 0,
+                               strictly_increasing(prices) and prices[0] == 1.01 and prices[len(prices) - 1] == 1000))
+    raises(ValueError, when=not exists(lambda a: eff_prices(prices)[a] == price, 0, len(eff_prices(prices))), label="off_ladder")
+    ensures("n_ticks_away_clamped", forall(lambda a: implies(eff_prices(prices)[a] == price,
+            result == eff_prices(prices)[clamp(a + n_ticks, 0, len(eff_prices(prices)) - 1)]), 0, len(eff_prices(prices))))
